@@ -68,6 +68,7 @@ func TestRtpfbReports(t *testing.T) {
 		twccNext := kit.U16Boundary().Draw(t, "twccStart")
 		rtpNext := kit.U16Boundary().Draw(t, "rtpStart")
 		lastReported := -1
+		maxMentioned := -1 // newest sent packet that any feedback so far has declared a status for
 		reports := 0
 		nontrivial := false
 		h := kit.NewH()
@@ -116,6 +117,7 @@ func TestRtpfbReports(t *testing.T) {
 				if !sent[idx].reported {
 					mentions[idx] = m
 				}
+				maxMentioned = max(maxMentioned, idx)
 			}
 			if rapid.Bool().Draw(t, "twccFb") {
 				back := rapid.OneOf(rapid.IntRange(-3, 30), rapid.IntRange(0, 120)).Draw(t, "back")
@@ -197,6 +199,10 @@ func TestRtpfbReports(t *testing.T) {
 				lastReported = i
 				if i >= len(sent) {
 					t.Fatalf("report names packet #%d, only %d were sent", i, len(sent))
+				}
+				if i > maxMentioned {
+					t.Fatalf("report names packet #%d (ssrc %d rtp seq %d twcc %d), which was sent after every packet that any feedback has declared a status for (newest declared: #%d): "+
+						"numbers outside the range a feedback declares must not be reported", i, pr.SSRC, pr.RTPSequenceNumber, pr.TWCCSequenceNumber, maxMentioned)
 				}
 				s := sent[i]
 				s.reported = true
